@@ -11,8 +11,11 @@ for mp in sorted(glob.glob(os.path.join(V, "seeded", "*", "meta.json"))):
     for c, v in m.get("detected_by", {}).items():
         if v["n_signatures"] and v["exit"] == 1:
             det.append("%s %s (%d sig., e.g. `%s`)" % (c, v["tier"], v["n_signatures"], v["signatures"][0][:90]))
+    latest = set(m.get("detected_by", {}))   # a check re-run in the latest evaluation speaks for itself
     for h in m.get("history", []):
         for c, v in (h.get("detected_by") or {}).items():
+            if c in latest:
+                continue
             if v["n_signatures"] and v["exit"] == 1 and not any(d.startswith(c + " " + v["tier"]) for d in det):
                 det.append("%s %s (%d sig.)" % (c, v["tier"], v["n_signatures"]))
     rows.append("| %s | %s | %s | %s |" % (m["seed"], "yes" if m.get("valid") else "NO", "; ".join(det) or "**missed**", notes))
